@@ -55,6 +55,9 @@ inductive PC
   | procTake (mode : Nat)
   | procLoop (mode : Nat) (todo kept : List Nat) (any : Bool)
   | procPutBack (kept : List Nat) (any : Bool)
+  /-- after the put-back of `processIf`: `if(doCanNotifyQueueAvailable()) notify_one()` -/
+  | procPbReadNc (any : Bool)
+  | procPbNotify (any : Bool)
   | procDec (res : Bool)
   -- takeEvent / peekEvent / clearEvents
   | takePre | takeLocked
@@ -208,7 +211,11 @@ def step (s : State) (t : Tid) (ch : Nat) : Option State :=
         else some (goto { s with consumed := s.consumed ++ [(e, .dispatched, t)] } t th (.procLoop mode r kept true)))
     | .procPutBack kept any =>
       if s.qm.isSome then none else
-      some (goto { s with queue := kept ++ s.queue } t th (.procDec any))
+      some (goto { s with queue := kept ++ s.queue } t th (.procPbReadNc any))
+    | .procPbReadNc any =>
+      -- the events were invisible to `emptyQueue()` for a while: a notifier may have skipped its notification
+      if s.nc = 0 then some (goto s t th (.procPbNotify any)) else some (goto s t th (.procDec any))
+    | .procPbNotify any => some (goto (notifyOne s ch) t th (.procDec any))
     | .procDec res => some (finish { s with ec := s.ec - 1 } t th (.bool res))
     -- takeEvent / peekEvent / clearEvents ----------------------------------------------------------
     | .takePre => if s.queue.isEmpty then some (finish s t th (.bool false)) else some (goto s t th .takeLocked)
